@@ -76,6 +76,12 @@ Definition helper_ok (c : circuit) (k : string) (i : ninfo) : Prop :=
   (∀ n, k ≠ mu_name c n) ∧ has_dot k = false ∧ n_out i = false ∧ n_fi i ≠ ∅ ∧
   (n_ty i = Or ∨ n_ty i = Nor ∨ n_ty i = And ∨ (n_ty i = Not ∧ size (n_fi i) = 1)).
 
+Lemma hs_x : "_x_in_fi" ∈ helper_suffixes. Proof. unfold helper_suffixes. set_solver. Qed.
+Lemma hs_0 : "_0_not_in_fi" ∈ helper_suffixes. Proof. unfold helper_suffixes. set_solver. Qed.
+Lemma hs_1 : "_1_not_in_fi" ∈ helper_suffixes. Proof. unfold helper_suffixes. set_solver. Qed.
+Lemma hs_is0 : "_is_0" ∈ helper_suffixes. Proof. unfold helper_suffixes. set_solver. Qed.
+Lemma hs_is1 : "_is_1" ∈ helper_suffixes. Proof. unfold helper_suffixes. set_solver. Qed.
+Lemma hs_notx : "_not_x" ∈ helper_suffixes. Proof. unfold helper_suffixes. set_solver. Qed.
 Lemma helper_name_ok c t x s : s ∈ helper_suffixes → has_dot x = false →
   (∀ n, uid t (x ++ s) ≠ mu_name c n) ∧ has_dot (uid t (x ++ s)) = false.
 Proof.
@@ -174,7 +180,7 @@ Section lits.
     - split; [done|]. unfold node_is, ty, fanin. rewrite Hl, decide_True by done. simpl. split; [done|]. set_solver.
     - intros k Hk Hkz. rewrite Hl, decide_False, decide_False; [done|done|]. by intros ->.
     - intros k i Hk Hd. rewrite Hl in Hk. destruct (decide (k = h)) as [->|].
-      + injection Hk as <-. destruct (helper_name_ok c s p "_is_0") as [H1 H2]; [unfold helper_suffixes; set_solver|by apply Hnd|].
+      + injection Hk as <-. destruct (helper_name_ok c s p "_is_0" hs_is0 (Hnd p Hp)) as [H1 H2].
         split; [done|]. split; [done|]. split; [done|]. split; [simpl; set_solver|]. simpl. auto.
       + destruct (decide (k = z)) as [->|]; [done|]. apply not_elem_of_dom in Hd. congruence.
   Qed.
@@ -204,8 +210,8 @@ Section lits.
       if decide (k = q) then Some (mk_node Not false (list_to_set [μ p]))
       else if decide (k = h) then Some (mk_node And false ({[q]} ∪ list_to_set [p]))
       else if decide (k = z) then upd_fi (λ S, {[h]} ∪ S) <$> s !! z else s !! k).
-    { intros k. unfold lit_or. change (add_fresh s (p ++ "_is_1") (o_lit doc_ttab) [p] z false) with (s1, h).
-      cbn [o_neg doc_ttab]. rewrite add_fresh_lookup by done. fold q.
+    { intros k. unfold lit_or. cbn [o_lit o_neg doc_ttab]. rewrite add_fresh_name. fold s1. fold h.
+      rewrite add_fresh_lookup by done. fold q.
       destruct (decide (k = q)); [done|]. destruct (decide (k = h)) as [->|].
       - rewrite Hl1, decide_True by done. done.
       - by rewrite Hl1, decide_False by done. }
@@ -218,11 +224,12 @@ Section lits.
         * unfold node_is, ty, fanin. rewrite Hl, decide_True by done. simpl. split; [done|]. set_solver.
     - intros k Hk Hkz. rewrite Hl. rewrite decide_False by (by intros ->). rewrite decide_False by (by intros ->). by rewrite decide_False.
     - intros k i Hk Hd. rewrite Hl in Hk. destruct (decide (k = q)) as [->|].
-      + injection Hk as <-. destruct (helper_name_ok c s1 p "_not_x") as [H1 H2]; [unfold helper_suffixes; set_solver|by apply Hnd|].
-        split; [done|]. split; [done|]. split; [done|]. split; [simpl; set_solver|]. simpl. right. right. right. split; [done|].
-        transitivity (size ({[μ p]} : gset string)); [f_equal; set_solver|apply size_singleton].
+      + injection Hk as <-. destruct (helper_name_ok c s1 p "_not_x" hs_notx (Hnd p Hp)) as [H1 H2].
+        split; [done|]. split; [done|]. split; [done|]. split; [simpl; set_solver|]. right. right. right. split; [done|].
+        assert (Hs1 : n_fi (mk_node Not false (list_to_set [μ p])) = ({[μ p]} : gset string)) by (simpl; set_solver).
+        etrans; [exact (f_equal size Hs1)|apply size_singleton].
       + destruct (decide (k = h)) as [->|].
-        * injection Hk as <-. destruct (helper_name_ok c s p "_is_1") as [H1 H2]; [unfold helper_suffixes; set_solver|by apply Hnd|].
+        * injection Hk as <-. destruct (helper_name_ok c s p "_is_1" hs_is1 (Hnd p Hp)) as [H1 H2].
           split; [done|]. split; [done|]. split; [done|]. split; [simpl; set_solver|]. simpl. auto.
         * destruct (decide (k = z)) as [->|]; [done|]. apply not_elem_of_dom in Hd. congruence.
   Qed.
@@ -241,6 +248,8 @@ Proof.
   apply set_eq. intros x. rewrite elem_of_list_to_set, elem_of_list_fmap, elem_of_map.
   setoid_rewrite elem_of_list_to_set. naive_solver.
 Qed.
+Lemma pair_set (x z : string) : ({[z]} ∪ ({[x]} ∪ ∅) : gset string) = {[x; z]}. Proof. set_solver. Qed.
+Lemma ne_empty_elem (X : gset string) (y : string) : y ∈ X → X ≠ ∅. Proof. set_solver. Qed.
 Lemma fanin_unset t m : t !! m = None ∨ t !! m = Some ph → fanin t m = ∅.
 Proof. unfold fanin. by intros [-> | ->]. Qed.
 
@@ -260,26 +269,26 @@ Section ctl.
 
   Lemma ctl_step t n o ps (fi : gset string) :
     (t !! μ n = None ∨ t !! μ n = Some ph) → ps ≠ [] → list_to_set ps = fi → (∀ p, p ∈ ps → p ∈ dom c) → n ∈ dom c →
-    let m := μ n in
-    let t1 := redefine t m And o [] in
-    let r2 := add_fresh t1 (n ++ "_x_in_fi") Or (μ <$> ps) m true in
-    let r3 := add_fresh r2.1 (n ++ sc) Nor [] m false in
-    let t' := foldl (litstep r3.2) r3.1 ps in
-    (∀ k, k ∈ dom t → k ≠ m → t' !! k = t !! k) ∧
+    let t' := ctl_branch μ litstep sc And Or Nor t n o ps in
+    (∀ k, k ∈ dom t → k ≠ μ n → t' !! k = t !! k) ∧
     ctl_gadget t' μ (lit t') n fi ∧
-    (∀ k j, t' !! k = Some j → k ∉ dom t → k ≠ m → new_ok c k j).
+    (∀ k j, t' !! k = Some j → k ∉ dom t → k ≠ μ n → new_ok c k j).
   Proof.
-    intros Hm Hps Hfi Hcl Hn m t1 r2 r3 t'.
+    unfold ctl_branch. intros Hm Hps Hfi Hcl Hn. remember (μ n) as m eqn:Em. set (t1 := redefine t m And o []).
+    set (r2 := add_fresh t1 (n ++ "_x_in_fi") Or (μ <$> ps) m true).
+    set (r3 := add_fresh r2.1 (n ++ sc) Nor [] m false). set (t' := foldl (litstep r3.2) r3.1 ps). cbv zeta.
     pose proof (fanin_unset _ _ Hm) as Hfm.
     (* t1 *)
     assert (Hl1 : ∀ k, t1 !! k = if decide (k = m) then Some (mk_node And o ∅) else t !! k).
-    { intros k. unfold t1. rewrite redefine_lookup, Hfm. destruct (decide (k = m)); [f_equal; f_equal; set_solver|].
+    { intros k. unfold t1. rewrite redefine_lookup, Hfm. destruct (decide (k = m)); [do 2 f_equal; apply (left_id_L ∅ (∪))|].
       unfold ens. destruct (t !! k); [done|]. rewrite decide_False; [done|]. apply not_elem_of_nil. }
     assert (Hm1 : m ∈ dom t1) by (apply elem_of_dom; rewrite Hl1, decide_True by done; eauto).
     assert (Hd1 : ∀ k, k ∈ dom t → k ∈ dom t1).
     { intros k Hk. apply elem_of_dom. rewrite Hl1. destruct (decide (k = m)); [eauto|by apply elem_of_dom]. }
     (* x_in_fi *)
-    pose proof (uid_fresh t1 (n ++ "_x_in_fi")) as Hx. set (x := uid t1 (n ++ "_x_in_fi")) in *.
+    pose proof (uid_fresh t1 (n ++ "_x_in_fi")) as Hx.
+    destruct (helper_name_ok c t1 n "_x_in_fi" hs_x (Hnd n Hn)) as [Hxn Hxd].
+    set (x := uid t1 (n ++ "_x_in_fi")) in *.
     assert (Hxm : x ≠ m) by (intros ->; done).
     set (t2 := r2.1).
     assert (Hl2 : ∀ k, t2 !! k =
@@ -293,8 +302,11 @@ Section ctl.
     { intros k Hk. apply elem_of_dom. rewrite Hl2. destruct (decide (k = x)); [eauto|]. destruct (decide (k = m)); [eauto|].
       apply elem_of_dom in Hk. rewrite Hl1, decide_False in Hk by done. destruct Hk as [j ->]. simpl. eauto. }
     assert (Hx2 : x ∈ dom t2) by (apply elem_of_dom; rewrite Hl2, decide_True by done; eauto).
+    clearbody x. clearbody t1.
     (* ctl node *)
-    pose proof (uid_fresh t2 (n ++ sc)) as Hz. set (z := uid t2 (n ++ sc)) in *.
+    pose proof (uid_fresh t2 (n ++ sc)) as Hz.
+    destruct (helper_name_ok c t2 n sc Hsc (Hnd n Hn)) as [Hzn Hzdot].
+    set (z := uid t2 (n ++ sc)) in *.
     assert (Hzm : z ≠ m) by (intros ->; done). assert (Hzx : z ≠ x) by (intros ->; done).
     set (t3 := r3.1).
     assert (Hl3 : ∀ k, t3 !! k =
@@ -303,12 +315,13 @@ Section ctl.
     { intros k. unfold t3, r3. fold t2. rewrite add_fresh_lookup by done. fold z. destruct (decide (k = z)); [done|].
       destruct (decide (k = m)) as [->|]; [|done]. by rewrite Hl2, decide_False, decide_True by done. }
     assert (Hz3 : t3 !! z = Some (mk_node Nor false ∅)) by (by rewrite Hl3, decide_True).
+    assert (Hr32 : r3.2 = z) by done.
     assert (Hd3 : ∀ k, k ∈ dom t2 → k ∈ dom t3).
     { intros k Hk. apply elem_of_dom. rewrite Hl3. destruct (decide (k = z)); [eauto|]. destruct (decide (k = m)); [eauto|].
       by apply elem_of_dom. }
     (* literal loop *)
     assert (HQ : Forall (λ p, p ∈ dom c) ps) by (by apply Forall_forall).
-    change r3.2 with z in t'.
+    unfold t'. rewrite Hr32. fold t3. clear t'. set (t' := foldl (litstep z) t3 ps). clearbody z. clearbody t3. clearbody t2.
     destruct (lit_loop (litstep z) (L z) (helper_ok c) (λ p, p ∈ dom c) z (L_frame z) (lstep z) ps t3 _ Hz3 HQ)
       as (Hfr & (H & Hz' & HH1 & HH2) & Hnew). fold t' in Hfr, Hz', HH1, HH2, Hnew.
     assert (Hm' : t' !! m = Some (mk_node And o ({[z]} ∪ ({[x]} ∪ ∅)))).
@@ -319,29 +332,140 @@ Section ctl.
     - intros k Hk Hkm. assert (k ≠ x) by (intros ->; by apply Hx, Hd1). assert (k ≠ z) by (intros ->; by apply Hz, Hd2, Hd1).
       rewrite Hfr; [|by apply Hd3, Hd2, Hd1|done]. rewrite Hl3, decide_False, decide_False by done.
       rewrite Hl2, decide_False, decide_False by done. apply elem_of_dom in Hk as [j ->]. done.
-    - unfold ctl_gadget. split; [unfold ty; by rewrite Hm'|].
-      assert (Hfm' : fanin t' m = {[x; z]}) by (unfold fanin; rewrite Hm'; simpl; set_solver).
-      exists x. split; [rewrite Hfm'; set_solver|]. exists z. split; [rewrite Hfm'; set_solver|].
+    - unfold ctl_gadget. rewrite <- !Em. split; [unfold ty; by rewrite Hm'|].
+      assert (Hfm' : fanin t' m = {[x; z]}) by (unfold fanin; rewrite Hm'; exact (pair_set x z)).
+      exists x. split; [rewrite Hfm'; apply elem_of_union; left; by apply elem_of_singleton|].
+      exists z. split; [rewrite Hfm'; apply elem_of_union; right; by apply elem_of_singleton|].
       split; [done|]. split; [|split; [|split]].
       + unfold node_is, ty, fanin. rewrite Hx'. simpl. split; [done|]. rewrite set_map_list. by rewrite Hfi.
       + unfold ty. by rewrite Hz'.
-      + unfold fanin. rewrite Hz'. simpl. intros h Hh. assert (h ∈ H) as Hh' by set_solver.
+      + unfold fanin. rewrite Hz'. simpl. intros h Hh. assert (h ∈ H) as Hh' by (apply elem_of_union in Hh as [Hh|Hh]; [done|by apply elem_of_empty in Hh]).
         destruct (HH1 h Hh') as (_ & p & Hp & HL). exists p. split; [rewrite <- Hfi; by apply elem_of_list_to_set|by eapply L_lit].
       + intros p Hp. rewrite <- Hfi in Hp. apply elem_of_list_to_set in Hp. destruct (HH2 p Hp) as (h & Hh & HL).
-        exists h. split; [|by eapply L_lit]. unfold fanin. rewrite Hz'. simpl. set_solver.
+        exists h. split; [|by eapply L_lit]. unfold fanin. rewrite Hz'. simpl. apply elem_of_union. by left.
     - intros k j Hk Hd Hkm. destruct (decide (k ∈ dom t3)) as [Hk3|Hk3]; [|right; by eapply Hnew].
       destruct (decide (k = z)) as [->|Hkz].
-      + right. rewrite Hz' in Hk. injection Hk as <-.
-        destruct (helper_name_ok c t2 n sc Hsc (Hnd n Hn)) as [H1 H2].
+      + right. rewrite Hz' in Hk. injection Hk as <-. pose proof Hzn as H1. pose proof Hzdot as H2.
         split; [done|]. split; [done|]. split; [done|]. split; [|simpl; auto].
-        simpl. destruct ps as [|p ps']; [done|]. destruct (HH2 p ltac:(by left)) as (h & Hh & _). set_solver.
+        simpl. destruct ps as [|p ps']; [done|]. destruct (HH2 p ltac:(by left)) as (h & Hh & _).
+        apply (ne_empty_elem _ h). apply elem_of_union. by left.
       + rewrite (Hfr k Hk3 Hkz) in Hk. rewrite Hl3, decide_False, decide_False in Hk by done.
         rewrite Hl2 in Hk. destruct (decide (k = x)) as [->|Hkx].
-        * right. injection Hk as <-. destruct (helper_name_ok c t1 n "_x_in_fi") as [H1 H2]; [unfold helper_suffixes; set_solver|by apply Hnd|].
+        * right. injection Hk as <-. pose proof Hxn as H1. pose proof Hxd as H2.
           split; [done|]. split; [done|]. split; [done|]. split; [|simpl; auto].
-          simpl. destruct ps as [|p ps']; [done|]. simpl. set_solver.
+          simpl. destruct ps as [|p ps']; [done|]. apply (ne_empty_elem _ (μ p)). apply elem_of_list_to_set. by left.
         * rewrite decide_False in Hk by done. apply not_elem_of_dom in Hd. rewrite Hd in Hk. simpl in Hk.
           destruct (decide (k ∈ μ <$> ps)) as [Hin|]; [|done]. injection Hk as <-.
           apply elem_of_list_fmap in Hin as (p & -> & Hp). left. split; [done|]. exists p. split; [by apply Hcl|done].
   Qed.
 End ctl.
+
+Definition arity_ok (i : ninfo) : Prop :=
+  match n_ty i with
+  | Buf | Not => ∃ p, n_fi i = {[p]}
+  | And | Nand | Or | Nor | Xor | Xnor => n_fi i ≠ ∅
+  | _ => True end.
+
+Section step.
+  Context (c : circuit) (fo : string → list string).
+  Notation μ := (mu_name c).
+  Hypothesis Hnd : ∀ k, k ∈ dom c → has_dot k = false.
+
+  Lemma L0_lit0 z s h p : L0 c z s h p → lit0 s μ h p. Proof. by intros [_ ?]. Qed.
+  Lemma L1_lit1 z s h p : L1 c z s h p → lit1 s μ h p.
+  Proof. intros (_ & Ht & q & _ & Hf & Hn). split; [done|]. exists q. split; [rewrite Hf; set_solver|done]. Qed.
+
+  Lemma simple_step t n ty o fi :
+    (t !! μ n = None ∨ t !! μ n = Some ph) → (∀ p, p ∈ fi → ∃ q, q ∈ dom c ∧ p = μ q) →
+    let t' := redefine t (μ n) ty o fi in
+    (∀ k, k ∈ dom t → k ≠ μ n → t' !! k = t !! k) ∧
+    t' !! μ n = Some (mk_node ty o (list_to_set fi)) ∧
+    (∀ k j, t' !! k = Some j → k ∉ dom t → k ≠ μ n → new_ok c k j).
+  Proof.
+    intros Hm Hfi t'. pose proof (fanin_unset _ _ Hm) as Hfm.
+    assert (Hl : ∀ k, t' !! k = if decide (k = μ n) then Some (mk_node ty o (list_to_set fi)) else ens (t !! k) k fi).
+    { intros k. unfold t'. rewrite redefine_lookup, Hfm. destruct (decide _); [|done]. do 2 f_equal. set_solver. }
+    split; [|split].
+    - intros k Hk Hkm. rewrite Hl, decide_False by done. apply elem_of_dom in Hk as [j ->]. done.
+    - by rewrite Hl, decide_True.
+    - intros k j Hk Hd Hkm. rewrite Hl, decide_False in Hk by done. apply not_elem_of_dom in Hd. rewrite Hd in Hk. simpl in Hk.
+      destruct (decide (k ∈ fi)) as [Hin|]; [|done]. injection Hk as <-. left. split; [done|]. destruct (Hfi k Hin) as (q & ? & ->). eauto.
+  Qed.
+
+  Lemma step_spec t n i t' : c !! n = Some i →
+    (t !! μ n = None ∨ t !! μ n = Some ph) →
+    list_to_set (fo n) = n_fi i → (∀ p, p ∈ n_fi i → p ∈ dom c) → arity_ok i →
+    step doc_ttab c fo t n = Ok t' → step_post c t n i t'.
+  Proof.
+    intros Hc Hm Hfo Hcl Har Hs.
+    assert (Hn : n ∈ dom c) by (apply elem_of_dom; eauto).
+    assert (Hcl' : ∀ p, p ∈ fo n → p ∈ dom c) by (intros p Hp; apply Hcl; rewrite <- Hfo; by apply elem_of_list_to_set).
+    assert (Hne : n_fi i ≠ ∅ → fo n ≠ []) by (intros H E; rewrite E in Hfo; simpl in Hfo; congruence).
+    assert (Hmus : ∀ p, p ∈ μ <$> fo n → ∃ q, q ∈ dom c ∧ p = μ q).
+    { intros p (q & -> & Hq)%elem_of_list_fmap. eauto. }
+    unfold arity_ok in Har.
+    assert (Hand : (n_ty i = And ∨ n_ty i = Nand) → step_post c t n i t').
+    { intros Ht.
+      assert (Heq : step doc_ttab c fo t n = Ok (ctl_branch μ (lit_and doc_ttab μ) "_0_not_in_fi" And Or Nor t n (n_out i) (fo n))).
+      { unfold step. rewrite Hc. destruct Ht as [-> | ->]; reflexivity. }
+      rewrite Heq in Hs. injection Hs as <-.
+      assert (Hfi : n_fi i ≠ ∅) by (destruct Ht as [E|E]; by rewrite E in Har).
+      pose proof (ctl_step c Hnd "_0_not_in_fi" (lit_and doc_ttab μ) (L0 c) (λ s, lit0 s μ)
+        hs_0 (L0_frame c) (lit_and_spec c Hnd) L0_lit0
+        t n (n_out i) (fo n) (n_fi i) Hm (Hne Hfi) Hfo Hcl' Hn) as H.
+      unfold step_post, comp_ok. destruct Ht as [-> | ->]; exact H. }
+    assert (Hor : (n_ty i = Or ∨ n_ty i = Nor) → step_post c t n i t').
+    { intros Ht.
+      assert (Heq : step doc_ttab c fo t n = Ok (ctl_branch μ (lit_or doc_ttab μ) "_1_not_in_fi" And Or Nor t n (n_out i) (fo n))).
+      { unfold step. rewrite Hc. destruct Ht as [-> | ->]; reflexivity. }
+      rewrite Heq in Hs. injection Hs as <-.
+      assert (Hfi : n_fi i ≠ ∅) by (destruct Ht as [E|E]; by rewrite E in Har).
+      pose proof (ctl_step c Hnd "_1_not_in_fi" (lit_or doc_ttab μ) (L1 c) (λ s, lit1 s μ)
+        hs_1 (L1_frame c) (lit_or_spec c Hnd) L1_lit1
+        t n (n_out i) (fo n) (n_fi i) Hm (Hne Hfi) Hfo Hcl' Hn) as H.
+      unfold step_post, comp_ok. destruct Ht as [-> | ->]; exact H. }
+    assert (Hbuf : (n_ty i = Buf ∨ n_ty i = Not) → step_post c t n i t').
+    { intros Ht. assert (∃ p, n_fi i = {[p]}) as [p Hp] by (destruct Ht as [E|E]; by rewrite E in Har).
+      destruct (fo n) as [|p' ps] eqn:Efo; [rewrite Hp in Hfo; simpl in Hfo; set_solver|].
+      assert (p' = p) as -> by (assert (p' ∈ n_fi i) by (rewrite <- Hfo; set_solver); set_solver).
+      assert (Heq : step doc_ttab c fo t n = Ok (redefine t (μ n) Buf (n_out i) [μ p])).
+      { unfold step. rewrite Hc, Efo. destruct Ht as [-> | ->]; reflexivity. }
+      rewrite Heq in Hs. injection Hs as <-.
+      destruct (simple_step t n Buf (n_out i) [μ p] Hm) as (H1 & H2 & H3).
+      { intros q ->%elem_of_list_singleton. exists p. split; [apply Hcl; set_solver|done]. }
+      split; [done|]. split; [|done]. unfold comp_ok.
+      assert (set_Exists (λ p0, n_fi i = {[p0]} ∧ node_is (redefine t (μ n) Buf (n_out i) [μ p]) (μ n) Buf {[μ p0]}) (n_fi i)).
+      { exists p. split; [set_solver|]. split; [done|]. unfold node_is, ty, fanin. rewrite H2. simpl. split; [done|]. set_solver. }
+      destruct Ht as [-> | ->]; done. }
+    assert (Hxor : (n_ty i = Xor ∨ n_ty i = Xnor) → step_post c t n i t').
+    { intros Ht. assert (Hfi : n_fi i ≠ ∅) by (destruct Ht as [E|E]; by rewrite E in Har).
+      assert (Heq : step doc_ttab c fo t n = Ok (redefine t (μ n) Or (n_out i) (μ <$> fo n))).
+      { unfold step. rewrite Hc. destruct Ht as [-> | ->]; reflexivity. }
+      rewrite Heq in Hs. injection Hs as <-.
+      destruct (simple_step t n Or (n_out i) (μ <$> fo n) Hm Hmus) as (H1 & H2 & H3).
+      split; [done|]. split; [|done]. unfold comp_ok.
+      assert (n_fi i ≠ ∅ ∧ node_is (redefine t (μ n) Or (n_out i) (μ <$> fo n)) (μ n) Or (set_map μ (n_fi i))).
+      { split; [done|]. unfold node_is, ty, fanin. rewrite H2. simpl. split; [done|]. by rewrite set_map_list, Hfo. }
+      destruct Ht as [-> | ->]; done. }
+    assert (Hk : (n_ty i = C0 ∨ n_ty i = C1) → step_post c t n i t').
+    { intros Ht.
+      assert (Heq : step doc_ttab c fo t n = Ok (redefine t (μ n) C0 (n_out i) [])).
+      { unfold step. rewrite Hc. destruct Ht as [-> | ->]; reflexivity. }
+      rewrite Heq in Hs. injection Hs as <-.
+      destruct (simple_step t n C0 (n_out i) [] Hm) as (H1 & H2 & H3); [by intros p ?%elem_of_nil|].
+      split; [done|]. split; [|done]. unfold comp_ok.
+      assert (node_is (redefine t (μ n) C0 (n_out i) []) (μ n) C0 ∅) by (unfold node_is, ty, fanin; by rewrite H2).
+      destruct Ht as [-> | ->]; done. }
+    assert (Hin : n_ty i = Input → step_post c t n i t').
+    { intros Ht.
+      assert (Heq : step doc_ttab c fo t n = Ok (redefine t (μ n) Input false [])).
+      { unfold step. rewrite Hc, Ht. reflexivity. }
+      rewrite Heq in Hs. injection Hs as <-.
+      destruct (simple_step t n Input false [] Hm) as (H1 & H2 & H3); [by intros p ?%elem_of_nil|].
+      split; [done|]. split; [|done]. unfold comp_ok. rewrite Ht. unfold node_is, ty, fanin; by rewrite H2. }
+    destruct (n_ty i) eqn:Et; auto;
+      exfalso; unfold step in Hs; rewrite Hc, Et in Hs;
+      repeat match type of Hs with context [tin ?a ?l] => let b := eval vm_compute in (tin a l) in change (tin a l) with b in Hs end;
+      discriminate Hs.
+  Qed.
+End step.
